@@ -1,9 +1,16 @@
 #!/bin/bash
 # Re-extract the model from the compiled Coq development and build mmodel.
+# Everything is built in a private directory and moved into place atomically, so that a
+# check that is running concurrently keeps using a complete binary.
 set -e
 cd "$(dirname "$0")"
-mkdir -p extracted
-( cd extracted && timeout 300 coqc -Q ../../coq/theories Meddly ../../coq/theories/Extract.v >/dev/null )
+w=extracted.$$
+mkdir -p "$w"
+trap 'rm -rf "$w"' EXIT
+( cd "$w" && timeout 300 coqc -Q ../../coq/theories Meddly ../../coq/theories/Extract.v >/dev/null )
 rm -f ../coq/theories/Extract.vo ../coq/theories/Extract.glob ../coq/theories/.Extract.aux ../coq/theories/Extract.vok ../coq/theories/Extract.vos
-cp driver.ml extracted/driver.ml
-( cd extracted && ocamlfind ocamlopt -package str -linkpkg -w -a model.mli model.ml driver.ml -o ../mmodel )
+cp driver.ml "$w/driver.ml"
+( cd "$w" && ocamlfind ocamlopt -package str -linkpkg -w -a model.mli model.ml driver.ml -o mmodel.new )
+mv "$w/mmodel.new" mmodel
+rm -rf extracted && mv "$w" extracted
+trap - EXIT
